@@ -85,5 +85,12 @@ Proof. exact (pneg_sound steps plo phi p u r). Qed.
 Theorem C06_reciprocal_sound steps plo phi (p : list R * list R) (u : list R) r : (0 < steps)%nat ->
   snd_ steps p u -> precip RN steps plo phi p = Ok r -> snd_ steps r (map (fun a => 1 / a) u).
 Proof. intros. eapply precip_sound; eauto. Qed.
+(* exp, log, sqrt, positive powers ...: a map nondecreasing on its domain (dom: the domain test the implementation applies to both bounds),
+   the domain being upward closed *)
+From PUN Require Import Model.PExpr Proofs.ComposeExpr.
+Theorem C06_monotone_map_sound steps plo phi (f : R -> R) (dom : R -> bool) (p : list R * list R) (u : list R) r :
+  (forall a b, dom a = true -> dom b = true -> a <= b -> f a <= f b) -> (forall a b, dom a = true -> a <= b -> dom b = true) ->
+  snd_ steps p u -> map_eval RN steps plo phi f dom p = Ok r -> snd_ steps r (map f u).
+Proof. exact (map_eval_sound steps plo phi f dom p u r). Qed.
 Print Assumptions C06_number_op_sound.
 Print Assumptions C06_reciprocal_sound.
